@@ -41,11 +41,28 @@ def plan(tier):
 
 def required(tier):
     return [f"sub:{s}" for s in SUBS] + ["bgzf_multi_block_configs", "lines_crossing_block_boundary", "gz_graph_configs",
-                                         "index_offsets_resolved", "gsi_offsets_resolved"]
+                                         "index_offsets_resolved", "gsi_offsets_resolved", "text_variant_crlf", "text_variant_utf8"]
 
 
 def setup(ctx):
     pass
+
+
+def text_variant(lines, rng, sit):
+    """text-level variants every reader accepts today: CRLF line ends and/or a non-ASCII (multi-byte
+    UTF-8) character in an optional field; the same bytes go into the plain and the BGZF copies"""
+    if rng.random() >= 0.3:
+        return lines
+    kind = rng.choice(["crlf", "utf8", "both"])
+    lines = list(lines)
+    if kind in ("utf8", "both"):
+        for i in range(0, len(lines), rng.randint(1, 7)):
+            lines[i] = lines[i] + "\tlb:Z:M\u00fcller\u2713"
+        sit["text_variant_utf8"] += 1
+    if kind in ("crlf", "both"):
+        lines = [l + "\r" for l in lines]
+        sit["text_variant_crlf"] += 1
+    return lines
 
 
 def write_configs(casedir, lines, graph_writer, rng, sit):
@@ -114,6 +131,7 @@ def run_case(ctx, rng, index, casedir):
         stable = sub != "view_format" and rng.random() < 0.5
         if stable:
             lines = [rgaf.ref_to_stable(g, l) for l in lines]
+        lines = text_variant(lines, rng, sit)
         cfgs = write_configs(casedir, lines, lambda p: g.write(p), rng, sit)
         coords = rgaf.Coords(g)
         if sub == "view_format":
@@ -196,6 +214,7 @@ def run_case(ctx, rng, index, casedir):
             all_equal(res, viol, "phased records", sub)
     elif sub == "sort":
         w = SC.build(rng, casedir, index, nrec=nrec, mode="plain")
+        w.lines = text_variant(w.lines, rng, sit)
         cfgs = write_configs(casedir, w.lines, lambda p: w.g.write(p, bo_no=w.tags), rng, sit)
         res, idxres = [], []
         for label, gaf, gfa in cfgs:
@@ -221,6 +240,7 @@ def run_case(ctx, rng, index, casedir):
     elif sub == "stat":
         lines = c19.synth(rng, nrec, collections.Counter())
         lines.append("readP\t10\t0\t10\t+\t>s1\t10\t0\t10\t10\t10\t60\ttp:A:P\tcg:Z:10=")
+        lines = text_variant(lines, rng, sit)
         cfgs = write_configs(casedir, lines, None, rng, sit)
         res = []
         for label, gaf, _ in cfgs:
@@ -232,6 +252,7 @@ def run_case(ctx, rng, index, casedir):
     elif sub == "realign":
         from vf import realign_run as RR
         w = RR.make_workload(rng, casedir, min(nrec, 900), read_len=(20, 120))
+        w.lines = text_variant(w.lines, rng, sit)
         cfgs = write_configs(casedir, w.lines, lambda p: w.g.write(p), rng, sit)
         res = []
         for label, gaf, gfa in cfgs:
